@@ -452,6 +452,8 @@ func orcClass(code uint32, space, log string) string {
 		return "ante:size"
 	case space == "sdk" && code == 8:
 		return "ante:pubkey"
+	case space == "sdk" && code == 4:
+		return "ante:sig" // ErrUnauthorized from the oracle branch of SigVerificationDecorator
 	case space == "undefined" && code == 1:
 		return "ante:nonce"
 	}
